@@ -3,16 +3,29 @@ import json, os
 from common import *
 
 
-def replay_session(chk, path, module, cfg, reset_events=()):
-    """Re-validate the session stored in a replay file against the trace spec."""
+def replay_session(chk, path, module, cfg, reset_events=(), prefix=None, prefix_events=(), profile=None):
+    """Replay a violation file: the inputs of the recorded session are re-executed on the CURRENT code by the harness
+    (`rerun`; byte-input families: FrameNew, Sfx, Scan, Iter, Decode, streaming sessions -- message-based sessions are kept as
+    recorded) and the resulting events are validated against the trace spec."""
     with open(path) as f:
         obj = json.load(f)
-    sess = obj["replay"]["session"]
-    tp = chk.path("replay.ndjson")
-    with open(tp, "w") as f:
+    rep = obj["replay"]
+    sess = rep.get("session") or rep.get("session_tail") or []
+    profile = profile or rep.get("profile") or "release"
+    tp0 = chk.path("replay-recorded.ndjson")
+    with open(tp0, "w") as f:
         for e in sess:
             f.write(json.dumps(e) + "\n")
-    r = tv(module, cfg, tp, reset_events=reset_events, shards=1, tag=chk.pid + "-replay")
+    tp = chk.path("replay.ndjson")
+    b = harness_bin(profile)
+    p = sh([b, "rerun", "events", "in=" + tp0, "out=" + tp], check=False, timeout=600)
+    if p.returncode != 0:
+        raise ToolError("rerun failed: " + p.stdout[-2000:])
+    if prefix:
+        body = open(tp).read()
+        with open(tp, "w") as f:
+            f.write(json.dumps(prefix) + "\n" + body)
+    r = tv(module, cfg, tp, reset_events=reset_events, prefix_events=prefix_events, shards=1, tag=chk.pid + "-replay")
     if r["rejects"]:
         print("VIOLATION property=%s replay=%s" % (chk.pid, path))
         return 1
